@@ -1,8 +1,11 @@
-SPECIFICATION TraceSpec
+SPECIFICATION Spec
 CONSTANTS
-  Bases = {"B1", "B2", "B3"}
+  Bases = {"B1"}
   Forms = {"self", "newtype", "alias", "salias", "final", "classvar", "fref", "nref", "aref", "sref", "nt_al", "nt_nt", "nt_sal", "fin_nt"}
   Emit = FALSE
+INVARIANT TypeOK
+INVARIANT Refines
+INVARIANT StoredFoundUnderItself
 INVARIANT MemoSound
-POSTCONDITION Consumed
+PROPERTY LookupStable
 CHECK_DEADLOCK FALSE
